@@ -145,6 +145,15 @@ func (env *vEnv) checkLinks(sp *vLinkSpec, label string) {
 				}
 			}
 			verifrt.Assert(verifRawCount(eb, vFDepts) == n, label+": no stray links on the emp side")
+			// the collection's own accessors agree with the raw buckets
+			if sp.emp[e] {
+				verifrt.Assert(len(env.emp.depts.GetLinks(tx, vIds[e])) == n, label+": GetLinks lists exactly the links (emp side)")
+				k := 0
+				for c := env.emp.depts.IterateLinks(tx, []byte(vIds[e])); c.IsValid(); c.Next() {
+					k++
+				}
+				verifrt.Assert(k == n, label+": IterateLinks yields exactly the links (emp side)")
+			}
 		}
 		for d := 0; d < 2; d++ {
 			db := env.dept.GetEntityBucket(tx, []byte(vDeptIds[d]))
@@ -156,6 +165,9 @@ func (env *vEnv) checkLinks(sp *vLinkSpec, label string) {
 				}
 			}
 			verifrt.Assert(verifRawCount(db, vFMembers) == n, label+": no stray links on the dept side")
+			if sp.dept[d] {
+				verifrt.Assert(len(env.dept.members.GetLinks(tx, vDeptIds[d])) == n, label+": GetLinks lists exactly the links (dept side)")
+			}
 		}
 	})
 }
